@@ -92,6 +92,152 @@ CELLS = set()
 CUR_CLS = [None]
 
 
+class Ev:
+    def __init__(self, kind, what, node, cond, fn):
+        self.kind, self.what, self.node, self.cond, self.fn = kind, what, node, cond, fn
+
+    def __repr__(self):
+        return "%s(%s)%s" % (self.kind, self.what, "?" if self.cond else "")
+
+
+def trace(repo, cls, mod, fn, cond=False, depth=0, seen=None, aliases=None):
+    """Effects of fn in program order, helper calls on self / cls inlined (extract-method refactorings keep the
+    trace): INIT(field) fresh object stored into self.field; MUT(field) accumulating mutation of it (also through
+    a local alias); SETCELL(cell) / READCELL(cell) for the shared module-level cells; SINK for file output.
+    cond: the event sits under a condition / in a loop (it may not happen)."""
+    seen = seen if seen is not None else set()
+    if id(fn) in seen or depth > 8:
+        return []
+    seen = seen | {id(fn)}
+    out = []
+    aliases = dict(aliases or {})
+
+    def field_of(e):
+        ch = attr_chain(e)
+        if ch and ch[0] == "self" and len(ch) >= 2:
+            return ch[1]
+        if ch and ch[0] in aliases:
+            return aliases[ch[0]]
+        return None
+
+    def visit_expr(e, c):
+        # calls in evaluation order (arguments before the call itself)
+        for n in ast.iter_child_nodes(e):
+            if isinstance(n, ast.expr) or isinstance(n, (ast.keyword, ast.comprehension)):
+                visit_expr(n, c or isinstance(e, (ast.IfExp, ast.ListComp, ast.GeneratorExp, ast.SetComp, ast.DictComp, ast.BoolOp)))
+        if isinstance(e, ast.Attribute) and isinstance(e.ctx, ast.Load):
+            ch = attr_chain(e)
+            if ch and len(ch) == 2 and ch[0] in CELLS:
+                out.append(Ev("READCELL", "%s.%s" % (ch[0], ch[1]), e, c, fn.name))
+        if isinstance(e, ast.Call):
+            cn = norm(e.func)
+            if isinstance(e.func, ast.Attribute) and e.func.attr in ACCUM:
+                f = field_of(e.func.value)
+                if f is not None:
+                    out.append(Ev("MUT", f, e, c, fn.name))
+            if (cn.endswith(".write") and ("tree" in cn or "ElementTree" in cn)) or cn == "open" or cn.endswith("._serialize_write_msg") or cn.endswith(".SerializeToString") and False:
+                out.append(Ev("SINK", cn, e, c, fn.name))
+            # helper on self / cls / a class of the module / module function
+            tgt, towner = None, cls
+            if isinstance(e.func, ast.Attribute) and isinstance(e.func.value, ast.Name):
+                if e.func.value.id in ("self", "cls") and cls is not None:
+                    _o, tgt = repo.find_method(cls, e.func.attr)
+                else:
+                    k = mod.classes.get(e.func.value.id)
+                    if k is not None:
+                        _o, tgt = repo.find_method(k, e.func.attr)
+                        towner = k
+            elif isinstance(e.func, ast.Name) and e.func.id in mod.functions:
+                tgt = mod.functions[e.func.id]
+                towner = None
+            if tgt is not None:
+                # aliases handed to the helper: parameters bound to self fields
+                ps = [a.arg for a in tgt.args.args]
+                decos = [ast.unparse(d) for d in tgt.decorator_list]
+                if ps and ps[0] in ("self", "cls") and "staticmethod" not in decos:
+                    ps = ps[1:]
+                al = {}
+                for pn, a in list(zip(ps, e.args)) + [(k.arg, k.value) for k in e.keywords if k.arg]:
+                    f = field_of(a)
+                    if f is not None:
+                        al[pn] = f
+                tmod = towner.mod if towner is not None and hasattr(towner, "mod") else mod
+                out.extend(trace(repo, towner if towner is not None else None, tmod, tgt, c, depth + 1, seen, al))
+
+    def returned_field(call):
+        """self field a helper returns (return self._root_node)"""
+        if isinstance(call, ast.Call) and isinstance(call.func, ast.Attribute) and isinstance(call.func.value, ast.Name) and call.func.value.id in ("self", "cls") and cls is not None:
+            _o, h = repo.find_method(cls, call.func.attr)
+            if h is not None:
+                fs = set()
+                for r in walk_no_nested(h):
+                    if isinstance(r, ast.Return) and r.value is not None:
+                        ch = attr_chain(r.value)
+                        fs.add(ch[1] if ch and ch[0] == "self" and len(ch) == 2 else None)
+                if len(fs) == 1 and None not in fs:
+                    return next(iter(fs))
+        return None
+
+    def visit_stmts(stmts, c):
+        for st in stmts:
+            if isinstance(st, (ast.FunctionDef, ast.AsyncFunctionDef, ast.ClassDef)):
+                continue
+            if isinstance(st, (ast.Assign, ast.AnnAssign, ast.AugAssign)):
+                val = st.value
+                if val is not None:
+                    visit_expr(val, c)
+                tgts = st.targets if isinstance(st, ast.Assign) else [st.target]
+                for t in tgts:
+                    ch = attr_chain(t) if isinstance(t, ast.Attribute) else None
+                    if ch and ch[0] == "self" and len(ch) == 2 and not isinstance(st, ast.AugAssign):
+                        fresh = isinstance(val, ast.Call) and field_of(val) is None and returned_field(val) is None
+                        out.append(Ev("INIT" if fresh else "STORE", ch[1], st, c, fn.name))
+                    elif ch and len(ch) == 2 and ch[0] in CELLS:
+                        roots = {x[0] for y in ast.walk(val) if isinstance(y, ast.Attribute) for x in [attr_chain(y)] if x} if val is not None else set()
+                        out.append(Ev("SETCELL" if roots == {"self"} else "SETCELL-FOREIGN", "%s.%s" % (ch[0], ch[1]), st, c, fn.name))
+                    elif isinstance(t, (ast.Attribute, ast.Subscript)):
+                        f = field_of(t.value)
+                        if f is not None:
+                            out.append(Ev("MUT", f, st, c, fn.name))
+                    elif isinstance(t, ast.Name) and val is not None:
+                        f = field_of(val) if isinstance(val, (ast.Attribute, ast.Name)) else returned_field(val)
+                        if f is not None:
+                            aliases[t.id] = f
+                        else:
+                            aliases.pop(t.id, None)
+            elif isinstance(st, ast.Expr):
+                visit_expr(st.value, c)
+            elif isinstance(st, ast.Return):
+                if st.value is not None:
+                    visit_expr(st.value, c)
+            elif isinstance(st, ast.If):
+                visit_expr(st.test, c)
+                visit_stmts(st.body, True)
+                visit_stmts(st.orelse, True)
+            elif isinstance(st, (ast.For, ast.While)):
+                if isinstance(st, ast.For):
+                    visit_expr(st.iter, c)
+                else:
+                    visit_expr(st.test, c)
+                visit_stmts(st.body, True)
+                visit_stmts(st.orelse, True)
+            elif isinstance(st, ast.With):
+                for it in st.items:
+                    visit_expr(it.context_expr, c)
+                visit_stmts(st.body, c)
+            elif isinstance(st, ast.Try):
+                visit_stmts(st.body, c)
+                for h in st.handlers:
+                    visit_stmts(h.body, True)
+                visit_stmts(st.orelse, True)
+                visit_stmts(st.finalbody, c)
+            elif isinstance(st, (ast.Raise, ast.Assert)):
+                pass
+
+    visit_stmts(fn.body, cond)
+    return out
+
+
 def run(repo, res, tier):
     res.rule("W1-NO-ACCUMULATION", "accumulated writer fields are re-initialised before the first mutation in every public write method", 4)
     res.rule("W2-NO-AMBIENT", "shared module-level cells read while writing are first assigned from the writer's own state", 2)
@@ -119,69 +265,43 @@ def run(repo, res, tier):
             if fn is None:
                 raise AnalysisError("%s.%s missing" % (cn, pm))
             qn = "%s.%s" % (cn, pm)
-            top = fn.body
-            # ---------------- W1
-            mf = mutated_fields(repo, cls, fn)
-            for f, site in sorted(mf.items()):
-                # first top-level statement that (transitively) mutates f
-                first = None
-                for i, st in enumerate(top):
-                    hit = False
-                    for n in ast.walk(st):
-                        if isinstance(n, ast.Call) and isinstance(n.func, ast.Attribute):
-                            ch = attr_chain(n.func.value)
-                            if n.func.attr in ACCUM and ch and ch[0] == "self" and len(ch) >= 2 and ch[1] == f:
-                                hit = True
-                            if isinstance(n.func.value, ast.Name) and n.func.value.id == "self":
-                                _o, m = repo.find_method(cls, n.func.attr)
-                                if m is not None and f in mutated_fields(repo, cls, m):
-                                    hit = True
-                    if hit:
-                        first = i
-                        break
-                init = None
-                for i, st in enumerate(top[: first if first is not None else 0]):
-                    if isinstance(st, (ast.Assign, ast.AnnAssign)):
-                        tg = st.targets[0] if isinstance(st, ast.Assign) else st.target
-                        if norm(tg) == "self." + f and isinstance(st.value, ast.Call):
-                            init = i
+            evs = trace(repo, cls, mod, fn)
+            # ---------------- W1: every field mutated on the write path is re-created unconditionally before
+            fields = []
+            for e in evs:
+                if e.kind == "MUT" and e.what not in fields:
+                    fields.append(e.what)
+            for f in fields:
+                first = next(i for i, e in enumerate(evs) if e.kind == "MUT" and e.what == f)
+                inits = [e for e in evs[:first] if e.kind == "INIT" and e.what == f and not e.cond]
+                site = evs[first]
                 res.check(
                     "W1-NO-ACCUMULATION",
                     "%s: self.%s re-initialised before it is filled" % (qn, f),
-                    init is not None,
+                    bool(inits),
                     mod,
-                    top[first] if first is not None else fn,
-                    "%s fills self.%s (%s) without re-initialising it first" % (qn, f, norm(site)[:60]),
+                    site.node,
+                    "%s fills self.%s (%s in %s) without re-initialising it first" % (qn, f, norm(site.node)[:60], site.fn),
                     "content appended by an earlier write call survives: a second write with the same writer produces different (duplicated) output",
                     qualname=qn,
                 )
-            # ---------------- W2
-            reads = [r for r in ambient_reads(repo, mod, fn) if r[0].split(".")[0] in CELLS]
-            cells = sorted({r[0] for r in reads})
+            # ---------------- W2: the shared cell is set from the writer's own state before it is read
+            cells = []
+            for e in evs:
+                if e.kind == "READCELL" and e.what not in cells:
+                    cells.append(e.what)
             for cell in cells:
-                first_use = None
-                for i, st in enumerate(top):
-                    if any(r[0] == cell for r in ambient_reads(repo, mod, ast.Module(body=[st], type_ignores=[])) ) if False else False:
-                        pass
-                # first top-level statement from which a read of the cell is reachable
-                for i, st in enumerate(top):
-                    fake = ast.FunctionDef(name="_", args=fn.args, body=[st], decorator_list=[], lineno=st.lineno)
-                    if any(r[0] == cell for r in ambient_reads(repo, mod, fake)):
-                        first_use = i
-                        break
-                setter = None
-                for i, st in enumerate(top[: first_use if first_use is not None else 0]):
-                    if isinstance(st, ast.Assign) and norm(st.targets[0]) == cell:
-                        roots = {ch[0] for x in ast.walk(st.value) if isinstance(x, ast.Attribute) for ch in [attr_chain(x)] if ch}
-                        if roots == {"self"}:
-                            setter = i
+                first = next(i for i, e in enumerate(evs) if e.kind == "READCELL" and e.what == cell)
+                sets = [e for e in evs[:first] if e.kind == "SETCELL" and e.what == cell and not e.cond]
+                foreign = [e for e in evs[:first] if e.kind == "SETCELL-FOREIGN" and e.what == cell and (not sets or evs.index(e) > evs.index(sets[-1]))]
+                site = evs[first]
                 res.check(
                     "W2-NO-AMBIENT",
                     "%s: %s assigned from the writer's own state before it is read" % (qn, cell),
-                    setter is not None,
+                    bool(sets) and not foreign,
                     mod,
-                    top[first_use] if first_use is not None else fn,
-                    "%s reads %s (in %s) without setting it from self first" % (qn, cell, sorted({r[2] for r in reads if r[0] == cell})[:3]),
+                    site.node,
+                    "%s reads %s (in %s) without setting it from self first" % (qn, cell, site.fn),
                     "the value depends on which writer was constructed last: another writer with a different precision changes this writer's output",
                     qualname=qn,
                 )
@@ -192,25 +312,31 @@ def run(repo, res, tier):
             for text, node, where in clocks:
                 ok = _is_date_stamp(mod, node)
                 res.check("W4-CLOCK", "%s: ambient read %s in %s is the date stamp" % (qn, text, where), ok, mod, node, "%s: %s in %s" % (qn, text, where), "the output depends on ambient state other than the documented date stamp", qualname=qn)
-            # ---------------- W3
-            sinks = []
-            for n in walk_no_nested(fn):
-                if isinstance(n, ast.Call):
-                    cnm = norm(n.func)
-                    if cnm.endswith(".write") and "tree" in cnm or cnm == "open" or cnm == "self._serialize_write_msg":
-                        sinks.append(n)
-            if not sinks:
+            # ---------------- W3: the statement of the public method that (through helpers) reaches a file sink is
+            # dominated by the skip-return of the overwrite policy
+            top = fn.body
+            sink_sites = []
+            for st in top:
+                for n in ast.walk(st):
+                    if isinstance(n, ast.Call):
+                        fake = ast.FunctionDef(name="_", args=fn.args, body=[ast.Expr(value=n)], decorator_list=[], lineno=getattr(n, "lineno", 0))
+                        sub = trace(repo, cls, mod, fake)
+                        direct = [e for e in sub if e.kind == "SINK" and e.node is n]
+                        via = [e for e in sub if e.kind == "SINK" and e.fn != "_"]
+                        if direct or (via and isinstance(n.func, ast.Attribute) and isinstance(n.func.value, ast.Name) and n.func.value.id in ("self", "cls")):
+                            sink_sites.append(n)
+            if not sink_sites:
                 raise AnalysisError("%s: no file sink found" % qn)
-            for s_ in sinks:
+            for s_ in sink_sites:
                 guards = [(norm(t), pol) for t, pol in dominating_guards(mod, s_, stop=fn)]
-                via_helper = ("filename", True) in guards and any(isinstance(st, ast.Assign) and norm(st.value).startswith("self._handle_file_path(") and norm(st.targets[0]) == "filename" for st in top)
+                via_helper = (("filename", True) in guards or ("not filename", False) in guards) and any(isinstance(st, ast.Assign) and norm(st.value).startswith("self._handle_file_path(") and norm(st.targets[0]) == "filename" and st.lineno < s_.lineno for st in top)
                 inline = False
                 for st in top:
                     if st.lineno >= s_.lineno:
                         break
                     if isinstance(st, ast.If) and ("is_file()" in norm(st.test) or "exists(" in norm(st.test)):
                         for r in ast.walk(st):
-                            if isinstance(r, ast.Return) and ("overwrite == 'n'", True) in [(norm(t), pol) for t, pol in dominating_guards(mod, r, stop=fn)]:
+                            if isinstance(r, ast.Return) and _says_skip([(t, pol) for t, pol in dominating_guards(mod, r, stop=fn)]):
                                 inline = True
                 res.check("W3-SKIP", "%s: sink %s dominated by the skip-return" % (qn, norm(s_.func)), via_helper or inline, mod, s_, "%s: %s" % (qn, norm(s_)[:80]), "the file is written although the overwrite policy said skip", qualname=qn)
                 if inline and not via_helper:
@@ -223,6 +349,17 @@ def run(repo, res, tier):
     ok = any(isinstance(n, ast.Assign) and isinstance(n.targets[0], ast.Attribute) and norm(n.targets[0]).startswith("self.") and norm(n.value) == "decimal_precision" for n in walk_no_nested(init))
     res.check("W2-NO-AMBIENT", "FileWriter.__init__ stores decimal_precision on the writer", ok, imod, init, "FileWriter.__init__ decimal_precision", "the precision requested for this writer is only kept in the shared cell", qualname="FileWriter.__init__")
     return {"shared_cells": sorted(CELLS)}
+
+
+def _says_skip(guards):
+    """the conditions say: the answer of the overwrite policy is 'skip'"""
+    for t, pol in guards:
+        tx = norm(t)
+        if pol and tx in ("overwrite == 'n'", "'n' == overwrite", "skip", "not overwrite"):
+            return True
+        if not pol and tx in ("overwrite == 'y'", "overwrite != 'n'", "not skip", "overwrite"):
+            return True
+    return False
 
 
 def _is_date_stamp(mod, node):
@@ -252,19 +389,45 @@ def _is_date_stamp(mod, node):
 
 
 def _policy(res, mod, fn, qn, returns_empty=False):
-    """under `<policy> is OverwriteExistingFile.SKIP` the answer is 'n', and answer 'n' returns (empty) before writing"""
-    ok_skip = False
-    ok_ret = False
-    for n in walk_no_nested(fn):
-        if isinstance(n, ast.Assign) and norm(n.targets[0]) == "overwrite" and isinstance(n.value, ast.Constant) and n.value.value == "n":
-            g = [(norm(t), pol) for t, pol in dominating_guards(mod, n, stop=fn)]
-            if any(pol and t in ("overwrite_existing_file is OverwriteExistingFile.SKIP", "overwrite_existing_file == OverwriteExistingFile.SKIP") for t, pol in g):
-                ok_skip = True
-        if isinstance(n, ast.Return):
-            g = [(norm(t), pol) for t, pol in dominating_guards(mod, n, stop=fn)]
-            if ("overwrite == 'n'", True) in g:
-                if returns_empty:
-                    ok_ret = n.value is not None and isinstance(n.value, ast.Constant) and n.value.value == ""
-                else:
-                    ok_ret = True
-    res.check("W3-SKIP", "%s: policy SKIP answers 'n' and 'n' returns before writing" % qn, ok_skip and ok_ret, mod, fn, "%s overwrite policy" % qn, "with overwrite mode SKIP an existing file is not left untouched", qualname=qn)
+    """Under `<policy> is OverwriteExistingFile.SKIP` (file exists) the function leaves before writing: some return
+    (of the empty name, for the shared helper) is reached under a test of a decision variable, and the value that
+    variable gets on the SKIP branch makes that test true."""
+    from ..dataflow import ReachingDefs
+
+    rd = ReachingDefs(fn)
+    ok = False
+    for r in walk_no_nested(fn):
+        if not isinstance(r, ast.Return):
+            continue
+        if returns_empty and not (r.value is not None and isinstance(r.value, ast.Constant) and r.value.value == ""):
+            continue
+        for t, pol in dominating_guards(mod, r, stop=fn):
+            names = [x.id for x in ast.walk(t) if isinstance(x, ast.Name) and x.id not in ("overwrite_existing_file", "filename", "OverwriteExistingFile")]
+            for v in names:
+                for d in rd.defs(v, r):
+                    if d.kind != "assign" or not isinstance(d.node, ast.Constant):
+                        continue
+                    g = [(norm(gt), gp) for gt, gp in dominating_guards(mod, d.stmt, stop=fn)]
+                    under_skip = any(gp and gt in ("overwrite_existing_file is OverwriteExistingFile.SKIP", "overwrite_existing_file == OverwriteExistingFile.SKIP") for gt, gp in g)
+                    if not under_skip:
+                        continue
+                    # evaluate the guarding test with the variable replaced by that constant
+                    try:
+                        val = eval(compile(ast.Expression(body=ast.fix_missing_locations(_subst(t, v, d.node))), "<policy>", "eval"), {"__builtins__": {}}, {})
+                    except Exception:
+                        continue
+                    if bool(val) == pol:
+                        ok = True
+    res.check("W3-SKIP", "%s: policy SKIP leads to the skip-return" % qn, ok, mod, fn, "%s overwrite policy" % qn, "with overwrite mode SKIP an existing file is not left untouched", qualname=qn)
+
+
+def _subst(test, var, const):
+    import copy
+
+    class S(ast.NodeTransformer):
+        def visit_Name(self, n):
+            if n.id == var:
+                return ast.copy_location(ast.Constant(value=const.value), n)
+            return n
+
+    return S().visit(copy.deepcopy(test))
